@@ -160,7 +160,7 @@ Proof.
   { intros f Hf. cbn [open_file bind]. unfold cnt_of.
     destruct mode; try (apply load_time_spec; exact Hf).
     unfold load_file_mem. apply load_mem_spec; assumption. }
-  unfold npy_load. destruct mode; try (exfalso; apply Hm; reflexivity);
+  unfold npy_load. destruct mode; cbn [resolve_mode mode_default_time]; try (exfalso; apply Hm; reflexivity);
     rewrite Hlo, Hhi; cbn [map]; rewrite load_all_files; rewrite (Hone f0 Hwf); cbn [bind];
     rewrite <- (spec_load_files_nil f0 o);
     rewrite (fold_files_spec _ (cnt_of _) o f0 Hone rest [] _ Hrest); reflexivity.
